@@ -64,7 +64,9 @@ theorem validity_valid {rrsig : Rrsig} {keyName : Name} {keyType : Nat} {records
   · cases h
   split at h
   · cases h
-  rename_i h1 h2 h3 h4
+  split at h
+  · cases h
+  rename_i h1 h2 hwf h3 h4
   simp only [List.any_eq_true, bne_iff_ne, ne_eq, not_exists, not_and, Decidable.not_not] at h1
   simp only [Bool.not_eq_true', Bool.and_eq_true, beq_iff_eq,
     decide_eq_true_eq, Bool.not_eq_false] at h2 h3 h4
@@ -125,6 +127,44 @@ theorem window_rejects (sigValid : SigOracle) (k : Dnskey) (kp : Proof) (sig : R
     (hw : ¬ InWindow now sig.input.inception sig.input.expiration) :
     verifyRrsetWithDnskey sigValid k kp sig keyName keyType records now ≠ .ok (.secure, ttl) :=
   fun h => hw (secure_implies_checks sigValid k kp sig keyName keyType records now ttl hnow hinc hexp h).2.2.2.2.2.2.2.2.2.2.2.1
+
+/-- since the repair `fix: an RRSIG's validity period must be well formed`: a valid RRSIG has
+`inception ≤ expiration` in serial arithmetic -/
+theorem valid_period {rrsig : Rrsig} {keyName : Name} {keyType : Nat} {records : List Record}
+    {k : Dnskey} {now : Nat}
+    (h : rrsigValidityCheck rrsig keyName keyType records k now = .validRrsig) :
+    serialLe rrsig.input.inception rrsig.input.expiration = true := by
+  unfold rrsigValidityCheck at h
+  split at h
+  · cases h
+  split at h
+  · cases h
+  split at h
+  · cases h
+  rename_i hwf
+  simpa using hwf
+
+/-- **A Secure verdict implies a well-formed validity period** (`inception ≤ expiration` serially:
+non-empty and shorter than 2³¹ s). -/
+theorem secure_period_wf (sigValid : SigOracle) (k : Dnskey) (kp : Proof) (sig : Rrsig)
+    (keyName : Name) (keyType : Nat) (records : List Record) (now : Nat) (ttl : Option Nat)
+    (hinc : sig.input.inception < M) (hexp : sig.input.expiration < M)
+    (h : verifyRrsetWithDnskey sigValid k kp sig keyName keyType records now = .ok (.secure, ttl)) :
+    SerialLe sig.input.inception sig.input.expiration := by
+  unfold verifyRrsetWithDnskey at h
+  split at h
+  · cases h
+  split at h
+  · cases h
+  split at h
+  · cases h
+  split at h
+  · cases h
+  split at h
+  · cases h
+  rename_i h5
+  simp only [ne_eq, Decidable.not_not] at h5
+  exact (serialLe_iff _ _ hinc hexp).1 (valid_period h5)
 
 /-- **TTL of an accepted RRset.**  A Secure verdict carries a TTL, and that TTL is at most the
 remaining signature lifetime (`expiration ⊖ now` in serial arithmetic), the RRSIG's Original TTL and
@@ -600,6 +640,49 @@ theorem cache_sound (sigValid : SigOracle) (cfg : CacheConfig) (hist : List Requ
     [] hist _ (cache_provenanceG sigValid cfg serve hist)
     (fun r hr => ⟨hb r hr, (hb r hr).1⟩) (by simp) hkey
 
+/-- clock and RRSIG times are `u32`s (nothing is assumed about the RRSIG's period) -/
+def Bounds32 (r : Request) : Prop :=
+  r.now < M ∧ r.rrsig.input.inception < M ∧ r.rrsig.input.expiration < M
+
+theorem step_secure32 (sigValid : SigOracle) (cfg : CacheConfig)
+    (past : List Request) (r : Request) (v : Verdict) (fresh : Bool)
+    (hs : StepSound sigValid cfg serve past r v fresh) (hsec : v.proof = .secure) (hb : Bounds32 r)
+    (hpair : ∀ r' ∈ past, KeyFaithful r' r ∧ Bounds32 r') :
+    SecureOK sigValid r ∧ TtlOK r v := by
+  obtain ⟨hnow, hinc, hexp⟩ := hb
+  -- the period is well formed because some request with this RRSIG was validated Secure
+  have hwf : SerialLe r.rrsig.input.inception r.rrsig.input.expiration := by
+    rcases hs with ⟨_, hv⟩ | ⟨_, r', hr', hck, t, ht, hlive, hv⟩
+    · subst hv
+      obtain ⟨k, _, hk⟩ := fresh_secure hsec
+      exact secure_period_wf sigValid k .secure r.rrsig r.keyName r.keyType r.records r.now _ hinc hexp hk
+    · obtain ⟨hkf, _⟩ := hpair r' hr'
+      obtain ⟨hsig, _, _, _⟩ := hkf hck
+      have hsec' : (freshVerdict sigValid r').proof = .secure := by
+        simp only [serve, entryOf] at hv
+        split at hv
+        · split at hv
+          · cases hv
+          · split at hv <;> (simp only [Option.some.injEq] at hv; rw [← hv] at hsec; exact hsec)
+        · simp only [Option.some.injEq] at hv; rw [← hv] at hsec; exact hsec
+      obtain ⟨k, _, hk⟩ := fresh_secure hsec'
+      rw [← hsig]
+      exact secure_period_wf sigValid k .secure r'.rrsig r'.keyName r'.keyType r'.records r'.now _
+        (by rw [hsig]; exact hinc) (by rw [hsig]; exact hexp) hk
+  exact step_secure sigValid cfg past r v fresh hs hsec ⟨hnow, hinc, hexp, hwf⟩
+    (fun r' hr' => ⟨(hpair r' hr').1, (hpair r' hr').2.1⟩)
+
+/-- **`cache_sound` without any assumption on the RRSIG's period** (u32 bounds and `KeyFaithful`
+only): a Secure verdict can only ever be computed for a well-formed period (`secure_period_wf`). -/
+theorem cache_sound_u32 (sigValid : SigOracle) (cfg : CacheConfig) (hist : List Request)
+    (hb : ∀ r ∈ hist, Bounds32 r) (hkey : hist.Pairwise KeyFaithful) :
+    AllSecure (fun r v => SecureOK sigValid r ∧ TtlOK r v) hist
+      (runHistory sigValid cfg [] hist) :=
+  allSecure_of_sound sigValid cfg serve _ KeyFaithful Bounds32 Bounds32
+    (fun past r v fresh hs hsec hb hp => step_secure32 sigValid cfg past r v fresh hs hsec hb hp)
+    [] hist _ (cache_provenanceG sigValid cfg serve hist)
+    (fun r hr => ⟨hb r hr, hb r hr⟩) (by simp) hkey
+
 /-! ### concrete values: non-vacuity -/
 
 deriving instance DecidableEq for Except
@@ -637,19 +720,19 @@ example :
       = .error .insecure := by
   decide
 
-/-- **Open finding `rrsig-period-2^31-served-from-cache`: the well-formedness hypothesis of `Bounds`
-is necessary.**  `RrsigValidity::check` never compares Inception with Expiration.  For an RRSIG with
+/-- regression (fixed by `fix: an RRSIG's validity period must be well formed`): an RRSIG with
 expiration 1010 and inception 1010 + 2³¹ (a period of exactly 2³¹ s, undefined in serial arithmetic)
-a validation at 1009 is Secure (both comparisons with the clock are defined), and one second later
-the verdict is served from the cache although the clock is no longer inside the window
-(`inception ≤ 1010` is undefined) and a fresh validation says Bogus. -/
-theorem counterexample_period_2_31 :
+used to be Secure at 1009 and was then served from the cache at 1010, where `inception ≤ now` is
+undefined; it is now never Secure, like every RRSIG whose expiration is before its inception -/
+example :
     let sigW : Rrsig := { sig0 with input := { sig0.input with inception := 1010 + HALF } }
-    let req : Nat → Request := fun now => ⟨[1], [(key0, .secure)], sigW, nameA, 1, [recA 3600 [10, 0, 0, 1]], now, 0⟩
-    (runHistory acceptAll {} [] [req 1009, req 1010]).map (fun o => (o.1.proof, o.1.adjustedTtl, o.2))
-      = [(.secure, some 1, true), (.secure, some 0, false)] ∧
-    (freshVerdict acceptAll (req 1010)).proof = .bogus ∧
-    ¬ ((1010 + M - (1010 + HALF)) % M < HALF) := by
+    let sigE : Rrsig := { sig0 with input := { sig0.input with inception := 2000, expiration := 1000 } }
+    let req : Rrsig → Nat → Request := fun sg now => ⟨[1], [(key0, .secure)], sg, nameA, 1, [recA 3600 [10, 0, 0, 1]], now, 0⟩
+    (freshVerdict acceptAll (req sigW 1009)).proof = .bogus ∧
+    (freshVerdict acceptAll (req sigW 1010)).proof = .bogus ∧
+    (freshVerdict acceptAll (req sigE 999)).proof = .bogus ∧
+    (freshVerdict acceptAll (req sigE 1500)).proof = .bogus ∧
+    (freshVerdict acceptAll (req sigE 2001)).proof = .bogus := by
   decide
 
 /-- an oracle that accepts exactly the signed data of `recs` under `sig0` (what unforgeability gives
